@@ -91,16 +91,16 @@ package yubiagent
 //@       arg(Server.Broadcast, k, 1) == at(retc(yubiagent.read, k + (old(calls(yubiagent.read)) - old(calls(Server.Broadcast))), 0),
 //@         off(ret(yubiagent.read, k + (old(calls(yubiagent.read)) - old(calls(Server.Broadcast))), 0)), 0)))
 //@   loop 1:
-//@     invariant servesShim(agent) ==> (calls(Server.Broadcast) - old(calls(Server.Broadcast)) == reads() &&
-//@       forall(k, old(calls(Server.Broadcast)) <= k && k < calls(Server.Broadcast),
-//@         arg(Server.Broadcast, k, 0) == agent.(*server).ShimAgent.(*shimagent.Server) &&
-//@         arg(Server.Broadcast, k, 1) == at(retc(yubiagent.read, k + (old(calls(yubiagent.read)) - old(calls(Server.Broadcast))), 0),
-//@           off(ret(yubiagent.read, k + (old(calls(yubiagent.read)) - old(calls(Server.Broadcast))), 0)), 0)))
 //@     invariant reads() >= 0 && responses() == reads()
 //@     invariant (typeof(agent) == *server && typeof(agent.(*server).ShimAgent) == *shimagent.Server) ==> shimagent.condsOK(agent.(*server).ShimAgent.(*shimagent.Server))
 //@     invariant calls(yubiagent.write) >= old(calls(yubiagent.write)) && calls(agent.ServeAgent) >= old(calls(agent.ServeAgent))
 //@     invariant forall(i, old(calls(yubiagent.write)) <= i && i < calls(yubiagent.write), arg(yubiagent.write, i, 0) == c)
 //@     invariant forall(i, old(calls(yubiagent.read)) <= i && i < calls(yubiagent.read), arg(yubiagent.read, i, 0) == c)
+//@     invariant [every-request-code-is-announced-before-it-is-served] servesShim(agent) ==> (calls(Server.Broadcast) - old(calls(Server.Broadcast)) == reads() &&
+//@       forall(k, old(calls(Server.Broadcast)) <= k && k < calls(Server.Broadcast),
+//@         arg(Server.Broadcast, k, 0) == agent.(*server).ShimAgent.(*shimagent.Server) &&
+//@         arg(Server.Broadcast, k, 1) == at(retc(yubiagent.read, k + (old(calls(yubiagent.read)) - old(calls(Server.Broadcast))), 0),
+//@           off(ret(yubiagent.read, k + (old(calls(yubiagent.read)) - old(calls(Server.Broadcast))), 0)), 0)))
 
 //@ # ---------------------------------------------------------------- C13: the client side
 //@ # the connection is used by one operation at a time: request frame, then reply frame, under connLock
